@@ -30,6 +30,12 @@ VATTR = [
 ]
 EATTR = [{"order": 1.0, "standard_order": 0.0}, {"order": 2.0, "standard_order": 0.0}]
 BACKENDS = ["generic", "wl", "morgan", "nauty"]
+# ITS-like graphs: edges carry the (before, after) order pair and its difference
+EATTR_ITS = [{"order": (1.0, 1.0), "standard_order": 0.0}, {"order": (1.0, 2.0), "standard_order": -1.0}, {"order": (2.0, 1.0), "standard_order": 1.0}]
+
+
+def tables(mode):
+    return (VATTR, EATTR_ITS) if mode.startswith("its") else (VATTR, EATTR)
 
 
 def sym_families(tier):
@@ -64,9 +70,25 @@ def gen(tier, seed):
             yield [eg.code_str(c), "rot"]
     for name, c in sym_families(tier).items():
         yield [eg.code_str(c), "full" if len(c[0]) <= 5 else "rot"]
+    # ITS-like family: three edge labels (unchanged / order up / order down)
+    for n in (2, 3):
+        for c in eg.representatives(n, 2, 3):
+            yield [eg.code_str(c), "its"]
+    for c in eg.representatives(4, 1, 3):
+        if eg.n_edges(c) <= 4:
+            yield [eg.code_str(c), "its"]
+    if tier != "quick":
+        for c in eg.representatives(5, 1, 3, connected_only=True):
+            if eg.n_edges(c) <= 5 and any(e > 1 for e in c[1]):
+                yield [eg.code_str(c), "itsrot"]
+    # six-ring with alternating changes (Cope-like) and a symmetric variant
+    ring = lambda labs: ((0,) * 6, tuple(labs[(i, j)] if (i, j) in labs else 0 for i, j in eg.pairs(6)))
+    yield [eg.code_str(ring({(0, 1): 2, (1, 2): 3, (2, 3): 2, (3, 4): 3, (4, 5): 2, (0, 5): 3})), "itsrot"]
+    yield [eg.code_str(ring({(0, 1): 2, (1, 2): 3, (2, 3): 1, (3, 4): 3, (4, 5): 2, (0, 5): 1})), "itsrot"]
 
 
 def presentations(code, mode):
+    mode = mode.replace("its", "") or "quick4"
     n = len(code[0])
     if mode == "rot":
         perms = [tuple((i + k) % n for i in range(n)) for k in range(n)] + [tuple((k - i) % n for i in range(n)) for k in range(n)]
@@ -110,12 +132,13 @@ def check(case):
     sigs = {b: set() for b in BACKENDS}
     first = {}
     dead = set()
-    base = eg.to_nx(code, VATTR, EATTR)
+    VA, EA = tables(mode)
+    base = eg.to_nx(code, VA, EA)
     autos = len(rm.automorphisms(base, full_attr_eq, full_attr_eq))
     tied = len(set(code[0])) < n
     ref_syn = None
     for pi, (pc, order, flip) in enumerate(presentations(code, mode)):
-        g = eg.to_nx(pc, VATTR, EATTR, node_order=order, edge_flip=flip)
+        g = eg.to_nx(pc, VA, EA, node_order=order, edge_flip=flip)
         for b in BACKENDS:
             if b in dead:
                 continue
@@ -195,13 +218,14 @@ def sig_worker(args):
         n = len(code[0])
         seen = {b: set() for b in BACKENDS}
         # a sub-family of presentations is enough to collect candidate signatures for collisions
-        for pi, (pc, order, flip) in enumerate(presentations(code, "rot" if n > 3 else mode)):
-            g = eg.to_nx(pc, VATTR, EATTR, node_order=order, edge_flip=flip)
+        VA, EA = tables(mode)
+        for pi, (pc, order, flip) in enumerate(presentations(code, ("itsrot" if mode.startswith("its") else "rot") if n > 3 else mode)):
+            g = eg.to_nx(pc, VA, EA, node_order=order, edge_flip=flip)
             for b in BACKENDS:
                 seen[b].add(canons[b].canonical_signature(g))
         for b in BACKENDS:
             for sg in seen[b]:
-                out.append((b, sg, s))
+                out.append((b, sg, s + ("|its" if mode.startswith("its") else "")))
     return out
 
 
@@ -221,10 +245,15 @@ def soundness(tier):
         ncls[b] |= reps
         # the same graph can be yielded by two families (e.g. C3 as a representative and as a symmetric family): compare isomorphism classes
         if len(reps) > 1:
-            codes = [eg.parse_code(x) for x in sorted(reps)]
-            g0 = eg.to_nx(codes[0], VATTR, EATTR)
-            for c in codes[1:]:
-                if not rm.isomorphic(g0, eg.to_nx(c, VATTR, EATTR), full_attr_eq, full_attr_eq):
+            def mk(x):
+                its = x.endswith("|its")
+                return eg.to_nx(eg.parse_code(x.split("|")[0]), VATTR, EATTR_ITS if its else EATTR)
+
+            codes = [eg.parse_code(x.split("|")[0]) for x in sorted(reps)]
+            graphs = [mk(x) for x in sorted(reps)]
+            g0 = graphs[0]
+            for c, gx in zip(codes[1:], graphs[1:]):
+                if not rm.isomorphic(g0, gx, full_attr_eq, full_attr_eq):
                     sub["violations"] += 1
                     acc.violations.append({"sub": "soundness/signature_collision", "key": f"{b}|{eg.code_str(codes[0])}|{eg.code_str(c)}", "observed": f"same signature {sg}", "expected": "different signatures for non-isomorphic graphs",
                                            "case": {"backend": b, "a": eg.code_str(codes[0]), "b": eg.code_str(c)}, "subcheck": "soundness"})
